@@ -17,6 +17,8 @@ nothing is evaluated:
   inline_guard_calls    `if not self._stage(a): return` with a helper whose every path ends in `return <constant>` -> the helper's decision
                         tree with the caller's arms in place of its returns (early returns moved into tail position first)
 
+  namedtuple_rows       `Row(1, "x")` / `Row(code=1, text="x")` of a namedtuple type of the module -> the tuple display `(1, "x")` (field names
+                        kept on the node; `<that display>.text` -> `"x"` once a loop over the table is unrolled)
   const_getattr         `getattr(x, "name")` -> `x.name`;  statement `setattr(x, "name", v)` -> `x.name = v`;
                         statement `X.update({"a": u, ..})` -> `X["a"] = u; ..`
 
@@ -993,8 +995,67 @@ def _drop_dead_tables(func):
     return func
 
 
+# ------------------------------------------------------------------------------------------------- namedtuple rows
+
+def namedtuple_fields(mod: ast.Module) -> dict:
+    """name -> [field, ..] of the namedtuple types a module defines at its top level (or one class level down):
+    `X = namedtuple("X", "a b")` / `("a", "b")` / `["a", "b"]`, `class X(NamedTuple): a: T; b: T`"""
+    out = {}
+
+    def scan(body):
+        for st in body:
+            if isinstance(st, ast.Assign) and len(st.targets) == 1 and isinstance(st.targets[0], ast.Name) and isinstance(st.value, ast.Call) \
+                    and ast.unparse(st.value.func) in ("namedtuple", "collections.namedtuple") and len(st.value.args) == 2 and not st.value.keywords:
+                f = st.value.args[1]
+                if isinstance(f, ast.Constant) and isinstance(f.value, str):
+                    out[st.targets[0].id] = f.value.replace(",", " ").split()
+                elif isinstance(f, (ast.Tuple, ast.List)) and all(isinstance(e, ast.Constant) and isinstance(e.value, str) for e in f.elts):
+                    out[st.targets[0].id] = [e.value for e in f.elts]
+            elif isinstance(st, ast.ClassDef) and any(ast.unparse(b) in ("NamedTuple", "typing.NamedTuple") for b in st.bases):
+                fs = [b.target.id for b in st.body if isinstance(b, ast.AnnAssign) and isinstance(b.target, ast.Name)]
+                if fs and not any(isinstance(b, ast.AnnAssign) and b.value is not None for b in st.body):
+                    out[st.name] = fs
+            elif isinstance(st, ast.ClassDef) and body is mod.body:
+                scan(st.body)
+    scan(mod.body)
+    return out
+
+
+def namedtuple_rows(mod: ast.Module) -> ast.Module:
+    """A namedtuple built with all its fields given -- `Law(1, "a * zeta")`, `Law(code=1, text=..)` -- is the tuple of those values with names
+    for its positions: the call is replaced by the tuple display (tagged with the field names), so that a table of such rows is a
+    literal table (unrolled like any other) and `row.text`, once `row` has been replaced by the row's display, is the element
+    (_ConstGetattr).  Values only: nothing else about the type is used."""
+    fields = namedtuple_fields(mod)
+    if not fields:
+        return mod
+
+    class Rows(ast.NodeTransformer):
+        def visit_Call(self, n):
+            self.generic_visit(n)
+            if isinstance(n.func, ast.Name) and n.func.id in fields and not any(isinstance(a, ast.Starred) for a in n.args) and all(k.arg for k in n.keywords):
+                fs = fields[n.func.id]
+                given = dict(zip(fs, n.args))
+                if len(n.args) <= len(fs) and not any(k.arg in given or k.arg not in fs for k in n.keywords):
+                    given.update({k.arg: k.value for k in n.keywords})
+                    if len(given) == len(fs):
+                        t = ast.copy_location(ast.Tuple(elts=[given[f] for f in fs], ctx=ast.Load()), n)
+                        t._nt_fields = list(fs)
+                        return t
+            return n
+    return ast.fix_missing_locations(Rows().visit(mod))
+
+
 class _ConstGetattr(ast.NodeTransformer):
-    """`getattr(x, "name")` (two arguments, literal identifier) is the attribute access `x.name`"""
+    """`getattr(x, "name")` (two arguments, literal identifier) is the attribute access `x.name`;  `<namedtuple row display>.field` is
+    the element at the field's position"""
+
+    def visit_Attribute(self, n):
+        self.generic_visit(n)
+        fs = getattr(n.value, "_nt_fields", None)
+        if fs and isinstance(n.value, ast.Tuple) and isinstance(n.ctx, ast.Load) and n.attr in fs and len(fs) == len(n.value.elts):
+            return ast.copy_location(n.value.elts[fs.index(n.attr)], n)
+        return n
 
     def visit_Call(self, n):
         self.generic_visit(n)
